@@ -203,10 +203,12 @@ def tpl_reject(size, m, pfx, locked, closed, notcoro, c, dup, _twin=False):
         w.close(code)
 
 
-def tpl_size(size, v, k, ctor, _twin=False):
+def tpl_size(size, v, k, ctor, half=0, _twin=False):
     """pool_size = v (any integer) on a pool with k running tasks; ctor=1: the constructors instead."""
     w = World("c09.size")
     code = 0
+    if half == 1:
+        v = v / 2          # odd v: a value between two integers (e.g. -0.5)
     try:
         if ctor:
             for mk in (lambda: TaskPool(pool_size=v), lambda: SimpleTaskPool(w.worker(1), pool_size=v)):
@@ -261,7 +263,8 @@ def families(tier):
         Family(name="reject", fn="tpl_reject", params=P, pre=pre,
                parts=parts_product(m=range(5), pfx=range(5), closed=(0, 1)),
                twin_pre=["m == 1", "pfx == 1", "closed == 0", "locked == 1"], twin_args=[2, 1, 1, 1, 0, 0, 1, 0]),
-        Family(name="size", fn="tpl_size", params=["size", "v", "k", "ctor"],
-               pre=["size >= 0", "0 <= k <= 3", "0 <= ctor <= 1"], parts=parts_product(ctor=(0, 1), k=range(4)),
-               twin_pre=["ctor == 0", "k == 1"], twin_args=[2, -1, 1, 0]),
+        Family(name="size", fn="tpl_size", params=["size", "v", "k", "ctor", "half"],
+               pre=["size >= 0", "0 <= k <= 3", "0 <= ctor <= 1", "0 <= half <= 1", "half == 0 or (-9 <= v <= 9)"],
+               parts=parts_product(ctor=(0, 1), k=range(4), half=(0, 1)),
+               twin_pre=["ctor == 0", "k == 1", "half == 0"], twin_args=[2, -1, 1, 0, 0]),
     ]
